@@ -193,6 +193,9 @@ fn check_tree(model: &mut Model, family: &str, blk: &Blk, spans: &[usize], local
     let tuple_arguments = count_tuple_arguments(blk);
     local.hist("family", family);
     let mut seen_text: HashMap<String, ()> = HashMap::new();
+    let mut text_failed: HashMap<String, String> = HashMap::new();
+    let mut pending_replay_breaks: Vec<(String, Violation)> = Vec::new();
+    let mut replay_break: Option<Violation> = None;
     let mut nontrivial = false;
     for kind in KINDS {
         for &span in spans {
@@ -239,7 +242,7 @@ fn check_tree(model: &mut Model, family: &str, blk: &Blk, spans: &[usize], local
                 let answer = model.ask(&format!("c02.writer {} {} {}", kind, span, ops_wire(ops)));
                 let expected_hex = hex(run.text.as_bytes());
                 if answer != expected_hex {
-                    local.violations.push(Violation {
+                    replay_break = Some(Violation {
                         kind: "correspondence".into(),
                         check: "writer-replay".into(),
                         what: format!(
@@ -260,6 +263,13 @@ fn check_tree(model: &mut Model, family: &str, blk: &Blk, spans: &[usize], local
                     nontrivial = true;
                 }
             }
+            // a model<->code break of the writer: is the property itself broken on this very
+            // run? (decided below by the re-readers; then it is reported as an oracle failure
+            // with this tree as failing input)
+            let text_key = format!("{}\u{0}{}", kind, run.text);
+            if let Some(v) = replay_break.take() {
+                pending_replay_breaks.push((text_key.clone(), v));
+            }
             if run.text.contains(' ') || run.text.contains('\n') {
                 local.hist("output", "has-separator");
             } else {
@@ -273,7 +283,7 @@ fn check_tree(model: &mut Model, family: &str, blk: &Blk, spans: &[usize], local
                 local.hist("span", "80-120");
             }
             // (3) oracle: re-read the text (once per distinct text)
-            if seen_text.insert(format!("{}\u{0}{}", kind, run.text), ()).is_some() {
+            if seen_text.insert(text_key.clone(), ()).is_some() {
                 continue;
             }
             local.count("distinct_texts_reparsed", 1);
@@ -293,6 +303,7 @@ fn check_tree(model: &mut Model, family: &str, blk: &Blk, spans: &[usize], local
                     }
                 };
                 if let Some(msg) = failure {
+                    text_failed.entry(text_key.clone()).or_insert_with(|| format!("{}: {}", who, msg.chars().take(200).collect::<String>()));
                     local.violations.push(Violation {
                         kind: "oracle".into(),
                         check: format!("reparse-{}", who),
@@ -310,6 +321,15 @@ fn check_tree(model: &mut Model, family: &str, blk: &Blk, spans: &[usize], local
                 }
             }
         }
+    }
+    for (key, mut v) in pending_replay_breaks {
+        if let Some(why) = text_failed.get(&key) {
+            v.kind = "oracle".into();
+            v.check = "writer-replay-and-reparse".into();
+            v.what = format!("{}; and the written text does not mean the source tree ({})", v.what, why);
+            v.failing_input_found = true;
+        }
+        local.violations.push(v);
     }
     if nontrivial {
         local.keys.push(crate::report::hash_of(&sexp::blk_str(blk)));
@@ -338,7 +358,7 @@ enum ME {
 const TYPE_NAMES: [&str; 3] = ["T", "number", "Foo"];
 
 fn atom_ex(k: usize) -> Ex {
-    match k % 13 {
+    match k % 16 {
         0 => id("a"),
         1 => id("b"),
         2 => id("c"),
@@ -351,7 +371,12 @@ fn atom_ex(k: usize) -> Ex {
         9 => Ex::Func(Box::new(Func { params: vec![], variadic: false, body: Blk::default(), sig: None })),
         10 => Ex::True,
         11 => Ex::Nil,
-        _ => Ex::Varargs,
+        12 => Ex::Varargs,
+        // Luau: an explicit type instantiation is a prefix expression; an interpolated string
+        // and a method call with type instantiation are one self-delimiting unit each
+        13 => Ex::Inst(bx(id("f")), vec![types::tname("T")]),
+        14 => Ex::Interp(vec![Seg::Str(b"s".to_vec()), Seg::Val(id("a"))]),
+        _ => Ex::MethodInst(bx(id("o")), "m".into(), vec![types::tname("T")], Args::Tuple(vec![])),
     }
 }
 
@@ -391,7 +416,7 @@ fn operand_shapes() -> Vec<ME> {
     use ME::*;
     let b = |e: ME| Box::new(e);
     let mut v: Vec<ME> = Vec::new();
-    for k in 0..13 {
+    for k in 0..16 {
         v.push(Atom(k));
     }
     v.push(NegNum(3));
@@ -494,7 +519,7 @@ fn table_correspondence(report: &mut Report, model: &mut Model) {
         }
     }
     let answers = model.ask_batch(&lines);
-    let atom_texts: Vec<String> = (0..13).map(ME::atom_text).collect();
+    let atom_texts: Vec<String> = (0..16).map(ME::atom_text).collect();
     for ((answer, real), input) in answers.iter().zip(&reals).zip(&inputs) {
         report.case(Some(input.clone()));
         report.hist("table", "printE-skeleton");
@@ -636,7 +661,7 @@ fn render_token(tok: &str, atoms: &[String]) -> String {
     }
     if let Some(k) = tok.strip_prefix('a').and_then(|d| d.parse::<usize>().ok()) {
         // a negative literal prints as `-` followed by the atom of its absolute value
-        return atoms.get(k % 13).cloned().unwrap_or_default();
+        return atoms.get(k % 16).cloned().unwrap_or_default();
     }
     if let Some(t) = tok.strip_prefix('t').and_then(|d| d.parse::<usize>().ok()) {
         return TYPE_NAMES[t % 3].to_owned();
